@@ -784,6 +784,8 @@ def run(rep, tier):
     prep = type(rep)(rep.prop, rep.tier)
     r20a(prep, pp)
     r20b(prep, pp)
+    r20f(prep, pp)
+    rep.positive('R20f', 'witness/positive/c20_local_control.cc', any(i.status == 'violation' and i.rule == 'R20f' for i in prep.instances.values()))
     r20e(prep, pp)
     rep.positive('R20e', 'witness/positive/c20_local_control.cc', any(i.status == 'violation' and i.rule == 'R20e' for i in prep.instances.values()))
     for m_ in common.mains(pp):
